@@ -892,6 +892,17 @@ impl StateMachine for RocksDBStateMachine {
             }
         }
 
+        // The applied index goes into the same atomic write as the data. Written separately
+        // (only on flush/close), a crash left data ahead of the index and the node applied
+        // the same entries a second time after restart.
+        if let Some(highest) = highest_index_entry {
+            let meta_cf = db.cf_handle(STATE_MACHINE_META_CF).ok_or_else(|| {
+                StorageError::DbError("State machine meta CF not found".to_string())
+            })?;
+            batch.put_cf(&meta_cf, LAST_APPLIED_INDEX_KEY, highest.index.to_be_bytes());
+            batch.put_cf(&meta_cf, LAST_APPLIED_TERM_KEY, highest.term.to_be_bytes());
+        }
+
         db.write_wbwi(&batch).map_err(|e| StorageError::DbError(e.to_string()))?;
 
         if let Some(highest) = highest_index_entry {
